@@ -9,6 +9,7 @@ back-pressure limit).
 import JubakoModel.Model.Pipeline
 import JubakoModel.Lemmas.Pipeline
 import JubakoModel.Lemmas.Creator
+import JubakoModel.Lemmas.ContentFile
 
 namespace Jubako
 
@@ -63,6 +64,26 @@ theorem c08_any_schedule (codec : Codec) (items : List Item) (n : Nat) (as : Lis
       resolve s.done (((Creator.init.addAll items).finalize).2.getD i (0,0)) =
         some ((items.getD i ⟨[], false⟩).data, (items.getD i ⟨[], false⟩).comp) :=
   creator_roundtrip_any_arrival items s.done (c08_final_perm codec _ n as s h hf).symm
+
+/-- **File level**: whatever complete schedule the pipeline follows, the bytes it produced
+    (`s.out` with the recorded `s.addresses` = the layout of `s.done`, `c08_addresses`) framed into a
+    pack read back, at every address, as the inserted bytes: the container's logical content does
+    not depend on how the compression workers were scheduled. -/
+theorem c08_file_any_schedule (H : Bytes → Bytes) (codec : Codec) (hcodec : codec.Sound)
+    (hbyte : codec.byte ≤ 3) (m : ContentPackMeta) (hm : m.WF) (items : List Item) (n : Nat)
+    (as : List PAct) (s : Pipe)
+    (h : (Pipe.init ((Creator.init.addAll items).finalize).1 n).run codec as = some s)
+    (hf : s.final = true)
+    (hcomp : codec.byte = 0 → ∀ it ∈ items, it.comp = false)
+    (hcount : items.length < 2 ^ 32) (hncl : s.done.length ≤ 2 ^ 20)
+    (hdata : totalSize items < 2 ^ 64)
+    (hsize : (contentPackWrite H codec m s.done ((Creator.init.addAll items).finalize).2).length < 2 ^ 48)
+    (i : Nat) (hi : i < items.length) :
+    contentGet codec.decompress'
+        (contentPackWrite H codec m s.done ((Creator.init.addAll items).finalize).2) i =
+      .ok (some (items[i]).data) :=
+  contentGet_contentPackWrite H codec hcodec hbyte m hm items s.done
+    (c08_final_perm codec _ n as s h hf) hcomp hcount hncl hdata hsize i hi
 
 /-- non-vacuity: a concrete schedule with 1 worker in which the raw cluster 1 overtakes the
     compressed cluster 0, reaching a final state -/
